@@ -30,6 +30,7 @@ type c20Scen struct {
 	Cancel bool // a canceller thread cancels the context at any point
 	Bound  int  // deviation bound (-1 unbounded)
 	WaitN  int  // n of waitUntilSizeIsBelow
+	Burst  int  `json:",omitempty"` // > 1: the producer pushes that many segments before each waitUntilSizeIsBelow (Pushes counts the bursts)
 	End    bool `json:",omitempty"` // the producer ends with the end-of-stream marker (push(nil)), as the downloader does after an ENDLIST playlist
 	Shard  int
 	Shards int
@@ -39,6 +40,9 @@ func (s c20Scen) name() string {
 	end := ""
 	if s.End {
 		end = " end-marker"
+	}
+	if s.Burst > 1 {
+		end += fmt.Sprintf(" burst=%d", s.Burst)
 	}
 	return fmt.Sprintf("queue pushes=%d pulls=%d cancel=%v waitn=%d bound=%d%s shard=%d/%d", s.Pushes, s.Pulls, s.Cancel, s.WaitN, s.Bound, end, s.Shard, s.Shards)
 }
@@ -72,6 +76,16 @@ func c20Scens(tier string) []c20Scen {
 			}
 		}
 		for _, c := range []bool{false, true} {
+			for _, bu := range []int{2, 3, 4} {
+				for q := 1; q <= bu; q++ {
+					for _, n := range []int{0, 1, 2} {
+						add(c20Scen{Pushes: 1, Pulls: q, Cancel: c, WaitN: n, Bound: 5, Burst: bu}, 1)
+						add(c20Scen{Pushes: 2, Pulls: q + 1, Cancel: c, WaitN: n, Bound: 4, Burst: bu}, 2)
+					}
+				}
+			}
+		}
+		for _, c := range []bool{false, true} {
 			for p := 0; p <= 3; p++ {
 				for _, n := range []int{1, 2} {
 					add(c20Scen{Pushes: p, Pulls: p + 1, Cancel: c, WaitN: n, Bound: 5, End: true}, 1)
@@ -95,6 +109,16 @@ func c20Scens(tier string) []c20Scen {
 				}
 			}
 		}
+	}
+	// bursts: several segments pushed before the producer waits (the wait must outlast more than one pull)
+	for _, c := range []bool{false, true} {
+		for _, bu := range []int{2, 3} {
+			for q := 1; q <= bu; q++ {
+				add(c20Scen{Pushes: 1, Pulls: q, Cancel: c, WaitN: 1, Bound: 3, Burst: bu}, 1)
+			}
+		}
+		add(c20Scen{Pushes: 2, Pulls: 3, Cancel: c, WaitN: 1, Bound: 3, Burst: 2}, 1)
+		add(c20Scen{Pushes: 1, Pulls: 3, Cancel: c, WaitN: 0, Bound: 3, Burst: 3}, 1)
 	}
 	// the end-of-stream marker: the consumer pulls everything, marker included
 	for p := 0; p <= 2; p++ {
@@ -135,6 +159,7 @@ type c20State struct {
 	qDone     bool
 	cancelled bool
 	pWaitRet  []bool
+	pWaitLen  []int // queue length the producer finds when waitUntilSizeIsBelow has returned
 	qPullOK   []bool
 	log       []string
 }
@@ -147,13 +172,16 @@ func c20Harness(sc c20Scen) vsched.Harness {
 			st.ctx, st.cancel = context.WithCancel(context.Background())
 			vsched.GoNamed("producer", func() {
 				for i := 0; i < sc.Pushes; i++ {
-					seg := &segmentData{payload: []byte{byte(i + 1)}}
-					st.pStage = fmt.Sprintf("push %d", i+1)
-					st.pushed = append(st.pushed, seg)
-					st.q.push(seg)
+					for k := 0; k < max(sc.Burst, 1); k++ {
+						seg := &segmentData{payload: []byte{byte(len(st.pushed) + 1)}}
+						st.pStage = fmt.Sprintf("push %d", len(st.pushed)+1)
+						st.pushed = append(st.pushed, seg)
+						st.q.push(seg)
+					}
 					st.pStage = fmt.Sprintf("waitUntilSizeIsBelow after push %d", i+1)
 					ok := st.q.waitUntilSizeIsBelow(st.ctx, sc.WaitN)
 					st.pWaitRet = append(st.pWaitRet, ok)
+					st.pWaitLen = append(st.pWaitLen, len(st.q.queue))
 					if !ok {
 						break
 					}
@@ -232,6 +260,12 @@ func c20Harness(sc c20Scen) vsched.Harness {
 					add("stuck-after-cancel/consumer", fmt.Sprintf("consumer still blocked in %q after cancellation (%s)", st.qStage, tr.Deadlock))
 				case qlen > 0:
 					add("lost-wakeup/pull", fmt.Sprintf("consumer blocked in %s while the queue holds %d segment(s): wake-up missed (%s)", st.qStage, qlen, tr.Deadlock))
+				}
+			}
+			// the throttle: only the producer adds to the queue, so what it finds right after a successful wait is at most n
+			for i, ok := range st.pWaitRet {
+				if ok && st.pWaitLen[i] > sc.WaitN {
+					add("wait-returned-early", fmt.Sprintf("waitUntilSizeIsBelow(%d) number %d returned true while the queue still held %d segments", sc.WaitN, i+1, st.pWaitLen[i]))
 				}
 			}
 			// without cancellation a wait / pull must not report failure
@@ -375,7 +409,9 @@ func c20Free(c *vh.Ctx, sc c20Scen) {
 		vsched.RunFree(5*time.Second, func() {
 			vsched.Go(func() {
 				for i := 0; i < sc.Pushes; i++ {
-					q.push(&segmentData{payload: []byte{byte(i)}})
+					for k := 0; k < max(sc.Burst, 1); k++ {
+						q.push(&segmentData{payload: []byte{byte(i)}})
+					}
 					if !q.waitUntilSizeIsBelow(ctx, sc.WaitN) {
 						return
 					}
